@@ -284,7 +284,18 @@ func runCheck(cmd, prop, tier, repo, root, only string, keep, verbose, writeExpe
 			var best SolverResult
 			var allr []SolverResult
 			provedQuery := q // the variant of the query that was discharged (thorough re-checks it on every solver)
-			if len(o.Ctx.qaxioms) > 0 {
+			if os.Getenv("VERIF_NO_FOCUS") == "" && len(o.PC) > 40 {
+				// stage -1 (long paths only): the focused query -- only the path facts about what the goal reads
+				oc := *o
+				oc.Focus = true
+				qc := buildQuery(&oc, true, false)
+				if rc := quickSolve(qc, smtDir, o.Name+"-focus", 4); rc.Result == "unsat" {
+					rc.Solver += "(focused)"
+					best, allr = rc, []SolverResult{rc}
+					provedQuery = qc
+				}
+			}
+			if best.Result != "unsat" && len(o.Ctx.qaxioms) > 0 {
 				// stage 0: without the quantified spec-function axioms (fewer assumptions: still a proof)
 				o0 := *o
 				o0.NoQAxioms = true
@@ -312,6 +323,18 @@ func runCheck(cmd, prop, tier, repo, root, only string, keep, verbose, writeExpe
 			if best.Result != "unsat" {
 				best, allr = discharge(q, smtDir, o.Name, max(3, timeout/3), false)
 			}
+			// the queries so far leave out range facts outside the goal's cone of influence (smt.go); the
+			// full query has every collected fact
+			oF := *o
+			oF.Full = true
+			qFull := buildQuery(&oF, true, false)
+			if best.Result == "sat" && qFull != q {
+				// a counterexample of the pruned query may break a fact that was left out: ask the full query
+				best, allr = discharge(qFull, smtDir, o.Name+"-fullctx", max(3, timeout/2), false)
+				if best.Result == "unsat" {
+					provedQuery = qFull
+				}
+			}
 			if best.Result != "unsat" && best.Result != "sat" && os.Getenv("VERIF_FAST_FAIL") != "" {
 				// must-fail corpus runs: an obligation that is not discharged by the first stages is reported
 				// as undischarged right away (never used for the registered checks)
@@ -322,6 +345,12 @@ func runCheck(cmd, prop, tier, repo, root, only string, keep, verbose, writeExpe
 					allr = append(allr, r)
 				} else {
 					best, allr = discharge(q, smtDir, o.Name, timeout, false)
+					if best.Result != "unsat" && qFull != q {
+						best, allr = discharge(qFull, smtDir, o.Name+"-fullctx", timeout, false)
+						if best.Result == "unsat" {
+							provedQuery = qFull
+						}
+					}
 				}
 			}
 			if tier == "thorough" && best.Result == "unsat" {
@@ -345,7 +374,7 @@ func runCheck(cmd, prop, tier, repo, root, only string, keep, verbose, writeExpe
 			}
 			if rep.Result == "sat" {
 				// ask again for a model
-				qm := buildQuery(o, true, true)
+				qm := buildQuery(&oF, true, true)
 				bm, _ := discharge(qm, smtDir, o.Name+"-model", timeout, false)
 				if bm.Result == "sat" {
 					rep.Model = bm.Model
@@ -376,7 +405,7 @@ func runCheck(cmd, prop, tier, repo, root, only string, keep, verbose, writeExpe
 			defer vwg.Done()
 			sem <- struct{}{}
 			defer func() { <-sem }()
-			o := &Obligation{Name: r.Name + "#vacuity:requires", Decls: c.preDecls, PC: c.prePC, Goal: "", Ctx: c}
+			o := &Obligation{Name: r.Name + "#vacuity:requires", Decls: c.preDecls, PC: c.prePC, Goal: "", Ctx: c, Full: true}
 			best := quickSolve(buildQuery(o, false, false), smtDir, o.Name, 3)
 			vmu.Lock()
 			vacs = append(vacs, vac{r.Name, "requires-satisfiable", best.Result})
@@ -388,7 +417,7 @@ func runCheck(cmd, prop, tier, repo, root, only string, keep, verbose, writeExpe
 			// at least one exit reachable (canary: `ensures false` must not be provable)
 			reach := "none"
 			for ei, pc := range c.exitPCs {
-				eo := &Obligation{Name: fmt.Sprintf("%s#vacuity:exit%d", r.Name, ei), Decls: len(c.decls), PC: pc, Goal: "", Ctx: c}
+				eo := &Obligation{Name: fmt.Sprintf("%s#vacuity:exit%d", r.Name, ei), Decls: len(c.decls), PC: pc, Goal: "", Ctx: c, Full: true}
 				// one solver, short limit: anything but `unsat` means the exit is not provably dead
 				b2 := quickSolve(buildQuery(eo, false, false), smtDir, eo.Name, 3)
 				if b2.Result != "unsat" {
